@@ -246,6 +246,17 @@ class C11(Check):
                 value, exc = ch.call(kind, fn), None
             except BaseException as e:  # noqa
                 value, exc = None, e
+        # a follow-up request through the SAME client without any per-call transport arguments: it gets the client-wide ones only
+        n_main = len(client.request_kwargs)
+        with ch.captured_sleeps():
+            try:
+                ch.call(kind, lambda: client.send(pjrpc.Request('follow', [0], id=99)))
+            except BaseException:  # noqa
+                pass
+        follow_kwargs = [dict(sorted(k.items())) for k in client.request_kwargs[n_main:]]
+        del client.sent[n_main:]
+        del client.request_kwargs[n_main:]
+        del log[sum(1 for e in log if e[4] is req or e[4] is not None and getattr(e[4], 'method', None) != 'follow'):]
         ctx_ids: Dict[int, int] = {}
         events = []
         for e in log:
@@ -253,14 +264,19 @@ class C11(Check):
             payload = None if e[5] is None else (summarise_exc(e[5]) if isinstance(e[5], BaseException) else summarise_value(e[5]))
             events.append([e[0], e[1], ctx_ids[e[2]], e[3] is ctx if ctx is not None else None, payload])
         return {'sent': [[json.loads(t), n] for t, n in client.sent], 'sent_text': [t for t, n in client.sent], 'value': summarise_value(value), 'exc': summarise_exc(exc),
-                'events': events, 'sleeps': list(sleeps), 'transport_kwargs': [dict(sorted(k.items())) for k in client.request_kwargs]}
+                'events': events, 'sleeps': list(sleeps), 'transport_kwargs': [dict(sorted(k.items())) for k in client.request_kwargs],
+                'follow_up_kwargs': follow_kwargs}
 
     def _compare_clients(self, tag: str, a: Dict[str, Any], b: Dict[str, Any], where: str) -> List[Disc]:
         want = {'headers': {'x': 'y'}, 'timeout': 1, 'verify': False}
         for half, o in (('sync', a), ('async', b)):
             if any(k != want for k in o['transport_kwargs']):
                 return [Disc(f"C11/{tag}/transport-arguments/{half}", f"transport got {o['transport_kwargs'][:2]} expected {want} on every attempt | {where}")]
-        for key in ('sent', 'sent_text', 'exc', 'value', 'events', 'sleeps', 'transport_kwargs'):
+        for half, o in (('sync', a), ('async', b)):
+            if any(k != {'timeout': 5, 'verify': False} for k in o['follow_up_kwargs']):
+                return [Disc(f"C11/{tag}/transport-arguments-leak-into-the-next-request/{half}",
+                             f"a later request without per-call arguments got {o['follow_up_kwargs'][:2]} (client-wide: timeout=5, verify=False) | {where}")]
+        for key in ('sent', 'sent_text', 'exc', 'value', 'events', 'sleeps', 'transport_kwargs', 'follow_up_kwargs'):
             x, y = a[key], b[key]
             if not ((x is None and y is None) or (x is not None and y is not None and jg.jeq(x, y))):
                 return [Disc(f"C11/{tag}/{key}", f"sync {jg.short(x, 350)} vs async {jg.short(y, 350)} | {where}")]
